@@ -435,7 +435,7 @@ tags C07 C03
 ret r
 spec:
         ensures r == self.blank()     // [C07] blank means Unicode-blank, fragment by fragment
-closure @ `|f| f.text.trim().is_empty()` `&TextFragment<'a>` ret `b: bool`:
+closure @ `|f| ` `&TextFragment<'a>` ret `b: bool`:
         ensures b == blank_str(f.txt())
 @*/
 /*@ fn src/text.rs Text::text_trimmed stub
